@@ -7,6 +7,7 @@ Stub: the peer (built on ref/p2p, ref/merkle, ref/txmodel), the transport, clock
 
 Serves C19 (oracles P1..P4) and C17 (oracles M1..M3).
 """
+import contextlib
 import io
 import struct
 
@@ -582,7 +583,7 @@ class Peer:
                 hs.append(h)
                 prev = rp.header_hash(h)
             return [(b"headers", rp.enc_headers(hs))]
-        if op in ("send_version", "raw_send", "header_edits"):
+        if op in ("send_version", "raw_send", "header_edits", "proof_edits"):
             return []
         raise ValueError(op)
 
@@ -1340,6 +1341,90 @@ def run_step(sess, cl, peer, step, prop):
                     tr.probe("header_bits_" + ("weird" if m["bits"] in WEIRD_BITS else "usual"))
                     blk.bits = m["bits"]
         return
+    if op == "proof_edits":
+        # an inclusion-proof object the client holds (decoded from the peer's bytes) is validated, altered in place, validated again,
+        # repaired, ...: the verdict and the ids it yields must be those of its CURRENT fields (M5: the same as for a fresh object
+        # decoded from the encoding of the current fields), an altered hash or root never validates, the honest fields always do
+        b = chain["blocks"][step["blk"] % len(chain["blocks"])]
+        nleaf = len(b["txids"])
+        flags = [(step["match"] >> (i % 30)) & 1 == 1 for i in range(nleaf)]
+        total0, hashes0, fb0, _ = rmerkle.build_partial([x[::-1] for x in b["txids"]], flags)
+        matched = [t for t, f in zip(b["txids"], flags) if f]
+        hm = rp.dec_header(b["header"])
+        cur = {"root": hm["root"], "total": total0, "hashes": list(hashes0), "flags": bytes(fb0)}
+        honest = dict(cur, hashes=list(hashes0))
+        mb = MerkleBlock.parse(io.BytesIO(rp.enc_merkleblock(b["header"], total0, hashes0, fb0)))
+        r = plan_rng(step["pseed"], "pe")
+        undo = []
+
+        def verdict(obj):
+            try:
+                with contextlib.redirect_stdout(io.StringIO()):
+                    ok = obj.is_valid()
+            except Exception as e:
+                return ("raised", type(e).__name__), []
+            return bool(ok), (list(obj.proved_txs()) if ok else [])
+
+        def apply(field, val):
+            cur[field] = val
+            if field == "root":
+                mb.header.merkle_root = val
+            elif field == "total":
+                mb.total = val
+            elif field == "flags":
+                mb.flags = val
+            elif field == "hashes":
+                # alternately element assignment in the held list and a new list
+                if step.get("inplace", True) and len(val) == len(mb.hashes):
+                    for i, h in enumerate(val):
+                        if mb.hashes[i] != h[::-1]:
+                            mb.hashes[i] = h[::-1]
+                else:
+                    mb.hashes = [h[::-1] for h in val]
+
+        for act in step["acts"]:
+            if act == "obs":
+                tr.oracle("M5_proof_history")
+                got, ids = verdict(mb)
+                h80 = rp.header80(hm["version"], hm["prev"], cur["root"], hm["time"], hm["bits"], hm["nonce"])
+                fresh = MerkleBlock.parse(io.BytesIO(rp.enc_merkleblock(h80, cur["total"], cur["hashes"], cur["flags"])))
+                fgot, fids = verdict(fresh)
+                is_honest = cur == honest
+                tr.probe("proof_obs_" + ("honest" if is_honest else "altered") + "_" + ("valid" if got is True else "invalid"))
+                if (got is True) != (fgot is True) or ids != fids:
+                    fail("C17", "M5", "proof_verdict_depends_on_history", f"held proof object (block of {nleaf} txs, after acts {step['acts']}) says {got} / {len(ids)} ids, a fresh object with the same fields says {fgot} / {len(fids)} ids")
+                elif is_honest and (got is not True or ids != matched):
+                    fail("C17", "M2", "honest_proof_rejected_after_history", f"proof object whose fields are the honest proof again says {got} and yields {len(ids)} ids, expected the {len(matched)} matched ids")
+                elif got is True:
+                    if cur["hashes"] != honest["hashes"] and cur["total"] == total0 and cur["flags"] == honest["flags"] or cur["root"] != honest["root"]:
+                        fail("C17", "M1", "altered_proof_validates", "a proof with an altered hash or header root validates")
+                    for t in ids:
+                        if t not in b["txids"]:
+                            fail("C17", "M1", "proved_foreign_txid", f"validated proof yields {t.hex()} which is not a transaction of the block")
+            elif act == "revert":
+                if undo:
+                    tr.fault("proof_edit_revert")
+                    apply(*undo.pop())
+            else:
+                tr.fault("proof_edit_" + act)
+                if act == "hash" and cur["hashes"]:
+                    i = r.randrange(len(cur["hashes"]))
+                    undo.append(("hashes", list(cur["hashes"])))
+                    hs = list(cur["hashes"])
+                    hs[i] = (int.from_bytes(hs[i], "big") ^ (1 << r.randrange(256))).to_bytes(32, "big")
+                    apply("hashes", hs)
+                elif act == "flag" and cur["flags"]:
+                    undo.append(("flags", cur["flags"]))
+                    fb = bytearray(cur["flags"])
+                    fb[r.randrange(len(fb))] ^= 1 << r.randrange(8)
+                    apply("flags", bytes(fb))
+                elif act == "total":
+                    undo.append(("total", cur["total"]))
+                    apply("total", max(1, cur["total"] ^ (1 << r.randrange(0, max(1, nleaf.bit_length())))))
+                elif act == "root":
+                    undo.append(("root", cur["root"]))
+                    apply("root", (int.from_bytes(cur["root"], "big") ^ (1 << r.randrange(256))).to_bytes(32, "big"))
+        return
     if op == "getdata_layout":
         gd = GetDataMessage()
         r = plan_rng(step["pseed"], "gd")
@@ -1592,6 +1677,22 @@ def gen_step(ch, op, chain_cfg, tier, enabled, p_fault):
         for _ in range(ch.randrange(1, 7)):
             acts.append("obs" if ch.chance(0.45) else ch.choice(["nonce", "nonce", "nonce", "time", "version", "root", "prev", "bits"]))
         s["acts"] = acts + ["obs"]
+    elif op == "proof_edits":
+        s["trigger"] = "-"
+        s["blk"] = ch.randrange(0, 16)
+        s["match"] = ch.choice([ch.getrandbits(30), ch.getrandbits(30) & ch.getrandbits(30), (1 << 30) - 1, 1 << ch.randrange(30)])
+        s["pseed"] = ch.randrange(1 << 30)
+        s["inplace"] = ch.chance(0.6)
+        acts = ["obs"] if ch.chance(0.7) else []
+        for _ in range(ch.randrange(1, 5)):
+            acts.append(ch.choice(["hash", "hash", "hash", "flag", "total", "root"]))
+            if ch.chance(0.6):
+                acts.append("obs")
+            if ch.chance(0.5):
+                acts.append("revert")
+                if ch.chance(0.7):
+                    acts.append("obs")
+        s["acts"] = acts + ["obs"]
     elif op == "getdata_layout":
         s["trigger"] = "-"
         s["n"] = ch.choice([0, 1, 0xFC, 0xFD, 0xFE, 300]) if ch.chance(0.5) else ch.randrange(0, 50)
@@ -1645,7 +1746,7 @@ def generate(ch, tier, prop):
         ops_pool = [("ping", 3), ("echo", 4), ("send_version", 2), ("getheaders", 2), ("filtered", 2), ("tx_accepted", 1), ("cfilters", 1), ("cfheaders", 1),
                     ("cfcheckpt", 1), ("getdata_layout", 1), ("block", 1), ("header_edits", 1), ("fields", 2)]
     else:
-        ops_pool = [("getheaders", 4), ("filtered", 6), ("block", 2), ("ping", 1), ("retarget", 3), ("header_edits", 1)]
+        ops_pool = [("getheaders", 4), ("filtered", 6), ("block", 2), ("ping", 1), ("retarget", 3), ("header_edits", 1), ("proof_edits", 2)]
     steps = []
     if ch.chance(0.85):
         steps.append(gen_step(ch, "handshake", chain, tier, enabled, p_fault))
